@@ -127,4 +127,13 @@ except TypeError:
 else:
     assert False, "TypeError not raised"
 
+doc="default comparison is identity"
+def f9(): pass
+def f10(): pass
+assert f9 == f9
+assert not (f9 == f10)
+assert f9 != f10
+assert not (f9 != f9)
+assert not (f9 == 5)
+
 doc="finished"
